@@ -152,12 +152,66 @@ def check_generic(res, facts):
     one("CubicExtConfig::mul_base_field_by_nonresidue(default)", find(facts, U, C, "mul_base_field_by_nonresidue", default_of=CC), ["y"], lambda ex, p: [SX.q_of(p.ret)], [BETA * y], models(3))
 
 
+def check_cycexp(res, facts):
+    """cyclotomic exponentiation: signed (NAF) digits are produced only when INVERSE_IS_FAST, the only configuration in
+    which the shared loop honours a negative digit (multiplies by the inverse); with INVERSE_IS_FAST = false the loop
+    ignores negative digits, so it must be fed plain bits."""
+    from arklib import dataflow as DF
+    rule = res.rule("R-CYCEXP", "cyclotomic_exp: NAF recoding only under INVERSE_IS_FAST; exp_loop multiplies by f on +1, by f^-1 on -1 exactly when INVERSE_IS_FAST", 2)
+    fns = {}
+    for f in facts.fns(unit="ws", crate="ark_ff"):
+        if f.kind != "Closure" and "fields::cyclotomic" in f.id and f.name in ("cyclotomic_exp_in_place", "exp_loop"):
+            fns[f.name] = f
+    f = fns.get("cyclotomic_exp_in_place")
+    key = "ark_ff|CyclotomicMultSubgroup::cyclotomic_exp_in_place"
+    if f is None:
+        rule.bad(key, "anchor missing")
+    else:
+        naf_bbs = {bb for bb, t in f.calls() if t["f"].get("name") in ("find_naf", "find_relaxed_naf", "find_wnaf")}
+        bits_bbs = {bb for bb, t in f.calls() if "BitIterator" in (t["f"].get("path") or "")}
+        slow, _ = DF.reach_under(f, {"INVERSE_IS_FAST": False})
+        fast, _ = DF.reach_under(f, {"INVERSE_IS_FAST": True})
+        problems = []
+        if naf_bbs & slow:
+            problems.append("signed-digit (NAF) recoding is reachable with INVERSE_IS_FAST = false, where exp_loop silently drops every -1 digit: the wrong power is computed (e.g. x^4 for exponent 3) on towers without a fast inverse (Fp3, Fp6_3over2)")
+        if not (bits_bbs & slow):
+            problems.append("no plain-bit iteration on the INVERSE_IS_FAST = false arm")
+        if not (naf_bbs & fast):
+            problems.append("NAF recoding missing on the fast arm")
+        (rule.bad if problems else rule.ok)(key, "; ".join(problems) if problems else "NAF digits only when INVERSE_IS_FAST, plain bits otherwise", f.loc)
+    f = fns.get("exp_loop")
+    key = "ark_ff|cyclotomic::exp_loop"
+    if f is None:
+        rule.bad(key, "anchor missing")
+    else:
+        from rules.c07 import E, show, A
+        EM = lambda o: DF.expr(f, o, depth=30, mut_as_phi=True)
+        muls = [(bb, DF.show(EM(t["args"][1]))) for bb, t in f.calls() if t["f"].get("name") == "mul_assign"]
+        fast, _ = DF.reach_under(f, {"INVERSE_IS_FAST": True})
+        slow, _ = DF.reach_under(f, {"INVERSE_IS_FAST": False})
+        base = [bb for bb, e in muls if e in ("arg1",)]
+        inv = [bb for bb, e in muls if "cyclotomic_inverse" in e or e.startswith("phi")]
+        problems = []
+        if len(muls) != 2 or len(base) != 1:
+            problems.append("expected res *= f on positive digits and res *= f^-1 on negative digits (found %s)" % [e for _, e in muls])
+        else:
+            other = [bb for bb, e in muls if bb not in base]
+            if not (set(other) <= fast) or (set(other) & slow):
+                problems.append("the inverse multiplication is not confined to INVERSE_IS_FAST")
+            if not (set(base) <= fast and set(base) <= slow):
+                problems.append("the multiplication by the base is configuration dependent")
+        if not any(t["f"].get("name") == "cyclotomic_square_in_place" for _, t in f.calls()):
+            problems.append("no squaring between digits")
+        (rule.bad if problems else rule.ok)(key, "; ".join(problems) if problems else "square between digits; +1: res *= f; -1: res *= f^-1 under INVERSE_IS_FAST only", f.loc)
+
+
 def run(ctx, res):
     facts = ctx.facts(["ws", "curves"])
     res.analysed = facts.stats()
     check_generic(res, facts)
     from rules import c02_towers
     c02_towers.check(res, facts)
+    check_cycexp(res, facts)
     return {
         "level": "proof",
         "explanation": "Each obligation is a polynomial (or rational-function) identity over Z in the kernel's input symbols: the MIR of the kernel is evaluated symbolically path by path (configuration arms split, data branches forked with their assumption) and the result compared with schoolbook arithmetic modulo X^k - beta written independently; equality is decided by expansion to normal form. Holds for all inputs over every commutative ring, hence for every shipped base field. Frobenius = x^(p^k) as a value statement, cyclotomic fast paths vs generic ones on the cyclotomic subgroup, legendre/sqrt are NOT decided here.",
